@@ -35,6 +35,7 @@ SIG_HEIGHT = "height-1cm-high-latitude"
 # ----------------------------------------------------------------------------- translator tie
 def regenerate(ck, needed, package, spec_dir):
     """own copy of numlib.regenerate with package / spec directory (numlib's is fixed to lean/numeric)"""
+    ck.lock_package()   # regeneration + build are one critical section per package
     import importlib
     import gen_all
     importlib.reload(gen_all)
